@@ -66,6 +66,9 @@ type RelayPlan struct {
 	// what is left (C16).
 	Epilogue bool `json:"epilogue,omitempty"`
 	Dispose  bool `json:"dispose,omitempty"` // end with ILalServer.Dispose instead of letting sessions leave
+	// PushHoldMs > 0: relay-push targets answer nothing for that long after accepting a connection (a slow target: the
+	// connect stays in progress while publishers come and go)
+	PushHoldMs int `json:"push_hold_ms,omitempty"`
 	// RtspIdle: instead of the relay ops, run the "RTSP publisher falls silent" scenario (C16): an RTSP publisher over
 	// TCP or UDP keeps sending across the first liveness sweep, then stops sending with its connection open.
 	RtspIdle *RtspIdlePlan `json:"rtsp_idle,omitempty"`
